@@ -17,7 +17,7 @@ RULE = ("case = one random input (symmetric 6x6 with full triclinic content, 21-
         "hostile class) on which all identities are evaluated, plus the exhaustive index-map and projector cases; distinct = "
         "descriptor digest; non-trivial = input is not the zero tensor/matrix")
 ASSUMPTIONS = ["rounding tolerance 1e-9 relative to the input norm; polar decomposition checked for cond up to 1e14 and singular inputs"]
-TOLERANCES = {"identities": "1e-9 * (1 + norm)"}
+TOLERANCES = {"identities": "1e-9 * norm (purely relative: every map is homogeneous)"}
 EXHAUSTIVE = False
 REQUIRED_MONITORS = ["voigt4_symmetries", "voigt_roundtrip", "vector_roundtrip", "vector_isometry", "contractions",
                      "rotate_law", "rotate_group_action", "polar_left", "polar_right", "invariants", "projector_algebra",
@@ -38,7 +38,9 @@ def gen_cases(ctx):
         n = 300
     for i in range(n):
         rng = ctx.rng(1, i)
-        yield {"kind": "random", "seed": int(rng.integers(1 << 31)), "scale": float(10.0 ** rng.uniform(-3, 3)),
+        # magnitudes: GPa-like numbers mostly, but the maps are linear, so Pa (1e11), compliances in 1/Pa (1e-12) and
+        # anything in between must behave identically (all tolerances below are relative to the norm)
+        yield {"kind": "random", "seed": int(rng.integers(1 << 31)), "scale": float(10.0 ** (rng.uniform(-3, 3) if i % 5 else rng.uniform(-14, 14))),
                "mat": str(rng.choice(MAT_KINDS))}
     if ctx.shard == 0 or ctx.mode != "jit":
         yield {"kind": "index_maps"}
@@ -90,7 +92,8 @@ def check_case(ctx, case):
         C = ctx.buf("C6", C)
     ctx.case(case, nontrivial=True)
     nrm = float(np.linalg.norm(C))
-    tol = 1e-9 * (1 + nrm)
+    tol = 1e-9 * nrm
+    ctx.cls("magnitude<1e-6" if sc < 1e-6 else "magnitude>1e6" if sc > 1e6 else "magnitude~1")
     t = np.asarray(T.voigt_to_elastic_tensor(C))
     e = max(float(np.abs(t - t.transpose(1, 0, 2, 3)).max()), float(np.abs(t - t.transpose(0, 1, 3, 2)).max()),
             float(np.abs(t - t.transpose(2, 3, 0, 1)).max()))
@@ -106,9 +109,9 @@ def check_case(ctx, case):
     x = rng.normal(size=21) * sc
     Mx = np.asarray(T.voigt_vector_to_matrix(x))
     e = float(np.abs(np.asarray(T.voigt_matrix_to_vector(Mx)) - x).max())
-    ctx.check("vector_roundtrip_converse", e <= 1e-9 * (1 + np.linalg.norm(x)) and float(np.abs(Mx - Mx.T).max()) == 0, case, err=e)
+    ctx.check("vector_roundtrip_converse", e <= 1e-9 * np.linalg.norm(x) and float(np.abs(Mx - Mx.T).max()) == 0, case, err=e)
     e = abs(float(np.linalg.norm(v)) - float(np.linalg.norm(t)))
-    ctx.extreme("isometry_err/norm", e / (1 + nrm))
+    ctx.extreme("isometry_err/norm", e / nrm)
     ctx.check("vector_isometry", e <= tol, case, err=e)
     # rotation
     _, R1 = drive.hostile_rotation(rng)
@@ -116,7 +119,7 @@ def check_case(ctx, case):
     r = np.asarray(T.rotate(t, R1))
     law = np.einsum("ia,jb,kc,ld,abcd->ijkl", R1, R1, R1, R1, t, optimize=True)
     e = float(np.abs(r - law).max())
-    ctx.extreme("rotate_law_err/norm", e / (1 + nrm))
+    ctx.extreme("rotate_law_err/norm", e / nrm)
     ctx.check("rotate_law", e <= 10 * tol, case, err=e)
     ctx.check("rotate_preserves_norm", abs(float(np.linalg.norm(r)) - float(np.linalg.norm(t))) <= 10 * tol, case)
     e = float(np.abs(np.asarray(T.rotate(r, R2)) - np.asarray(T.rotate(t, R2 @ R1))).max())
@@ -180,7 +183,8 @@ def check_case(ctx, case):
         prod = (S @ Rf) if left else (Rf @ S)
         rec = float(np.abs(prod - M).max())
         ctx.extreme(f"{name}_orth", orth)
-        ok = orth <= 1e-9 and sym <= 1e-9 * (1 + mn) and psd >= -1e-9 * (1 + mn) and rec <= 1e-9 * (1 + mn)
+        tm = 1e-9 * mn + 1e-300   # relative to the magnitude of the input (the decomposition is homogeneous of degree one)
+        ok = orth <= 1e-9 and sym <= tm and psd >= -tm and rec <= tm
         ctx.check(name, ok, case, orth=orth, sym=sym, psd=psd, rec=rec, mat=case["mat"])
     ev = np.linalg.eigvals(M)
     I1, I2, I3 = T.invariants_second_order(M)
@@ -192,11 +196,11 @@ def check_case(ctx, case):
     c1 = np.trace(M)
     c2 = 0.5 * (np.trace(M) ** 2 - np.trace(M @ M))
     c3 = np.linalg.det(M)
-    tolm = 1e-9 * (1 + mn) ** 3
-    ok = abs(I1 - c1) <= tolm and abs(I2 - c2) <= tolm and abs(I3 - c3) <= tolm
+    # homogeneous of degree 1, 2, 3: tolerances relative to the corresponding power of the norm
+    ok = abs(I1 - c1) <= 1e-9 * mn + 1e-300 and abs(I2 - c2) <= 1e-9 * mn ** 2 + 1e-300 and abs(I3 - c3) <= 1e-9 * mn ** 3 + 1e-300
     well = np.linalg.cond(M) < 1e6 if mn > 0 else False
     if well:
-        ok = ok and abs(I1 - s1) <= 1e-6 * (1 + mn) and abs(I2 - s2) <= 1e-6 * (1 + mn) ** 2 and abs(I3 - s3) <= 1e-6 * (1 + mn) ** 3
+        ok = ok and abs(I1 - s1) <= 1e-6 * mn and abs(I2 - s2) <= 1e-6 * mn ** 2 and abs(I3 - s3) <= 1e-6 * mn ** 3
     ctx.check("invariants", bool(ok), case, I=[float(I1), float(I2), float(I3)], mat=case["mat"])
     if len(ctx.samples) < 2:
         ctx.sample(case, norm=nrm)
